@@ -42,10 +42,10 @@ let handle op args = match op, args with
        Printf.sprintf "%s derived=%s back=%s" (out_addr (Ok a)) d back
      | o -> out_addr o)
   | "addrstr", s :: sha -> out_addr (addr_from_string (sha_of (sha_table sha)) (bytes_arg s))
-  | "frombits", [c] ->
+  | ("frombits" | "pfrombits"), [c] ->
     let ((t, neg), ovf) = fromBits (z_of_hex c) in
     Printf.sprintf "%s %s %s" (hex_of_z t) (b2s neg) (b2s ovf)
-  | "tobits", [v; neg] -> hex_of_z (toBits (z_of_hex v) (neg = "1"))
+  | ("tobits" | "ptobits"), [v; neg] -> hex_of_z (toBits (z_of_hex v) (neg = "1"))
   | "frombits_b", [c] ->
     let ((t, neg), ovf) = fromBits_b (z_of_hex c) in
     Printf.sprintf "%s %s %s" (hexnum_of_le t) (b2s neg) (b2s ovf)
